@@ -15,7 +15,7 @@ Python → Lean
 * `<name>.thread-<id>-pid-<pid>` of the participant `o`               : `Name.tmpOut o`, `Name.tmpMeta o`
 * a system call                                                        : `Op`; its result `Res`; `apply : Op → FS → Res × FS`
 * open files survive `unlink`/`rename`: every file has an inode number; `creat` on an existing name truncates the same
-  inode; replaced / unlinked inodes move to `orphans`; `write` is the (single) write of the whole content at offset 0
+  inode; replaced / unlinked inodes move to `orphans` (tagged with the name they had, like `/proc/<pid>/fd` shows `name (deleted)`); `write` is the (single) write of the whole content at offset 0
 * a Python procedure                                                   : `Prog α` — a tree whose nodes are single system
   calls (`Prog.op o k`), leaves `ret a` (returns) / `raise e` (propagates an exception); `try/except` = `Prog.tryCatch`
 * `numpy_pickle.dump/load`, `json.dumps/loads`, the `func_code.py` text and its comparison with the live source
@@ -42,7 +42,8 @@ deriving DecidableEq, Repr, Inhabited
 
 structure FS where
   names : List (Path × Node)
-  orphans : List (Nat × Bytes)
+  /-- unlinked / replaced files that may still be open: (the name the file was removed from, inode, content) -/
+  orphans : List (Path × Nat × Bytes)
   next : Nat
 deriving Repr, Inhabited
 
@@ -88,24 +89,21 @@ def writeNames (i : Nat) (d : Bytes) : List (Path × Node) → List (Path × Nod
   | (q, .file j c) :: r => (q, .file j (if j = i then overwrite c d else c)) :: writeNames i d r
   | (q, n) :: r => (q, n) :: writeNames i d r
 
-def writeOrphans (i : Nat) (d : Bytes) : List (Nat × Bytes) → List (Nat × Bytes)
+def writeOrphans (i : Nat) (d : Bytes) : List (Path × Nat × Bytes) → List (Path × Nat × Bytes)
   | [] => []
-  | (j, c) :: r => (j, if j = i then overwrite c d else c) :: writeOrphans i d r
+  | (q, j, c) :: r => (q, j, if j = i then overwrite c d else c) :: writeOrphans i d r
 
-def inoInNames (i : Nat) : List (Path × Node) → Option Bytes
+def inoInOrphans (i : Nat) : List (Path × Nat × Bytes) → Option Bytes
   | [] => none
-  | (_, .file j c) :: r => if j = i then some c else inoInNames i r
-  | _ :: r => inoInNames i r
+  | (_, j, c) :: r => if j = i then some c else inoInOrphans i r
 
-def inoInOrphans (i : Nat) : List (Nat × Bytes) → Option Bytes
-  | [] => none
-  | (j, c) :: r => if j = i then some c else inoInOrphans i r
-
-/-- Content of the open file with inode `i` (linked or not). -/
-def FS.inoData (fs : FS) (i : Nat) : Bytes :=
-  match inoInNames i fs.names with
-  | some c => c
-  | none => (inoInOrphans i fs.orphans).getD []
+/-- Content seen through a file descriptor obtained by opening `p` when it was inode `i`: the file at `p` if it still is
+that inode, otherwise the removed-but-open inode. (Files opened for reading — `func_code.py`, `metadata.json`,
+`output.pkl` — are never the *source* of a rename in this protocol, so a linked inode is always found at its own name.) -/
+def FS.readData (fs : FS) (p : Path) (i : Nat) : Bytes :=
+  match fs.get p with
+  | some (.file j c) => if j = i then c else (inoInOrphans i fs.orphans).getD []
+  | _ => (inoInOrphans i fs.orphans).getD []
 
 /-- Content of the file at a path. -/
 def FS.dataAt (fs : FS) (p : Path) : Option Bytes :=
@@ -171,7 +169,7 @@ def apply : Op → FS → Res × FS
         | some (.dir _) => (.eisdir, fs)
         | some (.file j c') =>
           if q = p then (.ok, fs)
-          else (.ok, { ((fs.erase p).set q (.file i c)) with orphans := (j, c') :: fs.orphans })
+          else (.ok, { ((fs.erase p).set q (.file i c)) with orphans := (q, j, c') :: fs.orphans })
         | none => (.ok, (fs.erase p).set q (.file i c))
       | some (.file _ _) => (.enotdir, fs)
       | none => (.enoent, fs)
@@ -179,7 +177,7 @@ def apply : Op → FS → Res × FS
     match fs.get p with
     | none => (.enoent, fs)
     | some (.dir _) => (.eisdir, fs)
-    | some (.file i c) => (.ok, { (fs.erase p) with orphans := (i, c) :: fs.orphans })
+    | some (.file i c) => (.ok, { (fs.erase p) with orphans := (p, i, c) :: fs.orphans })
   | .rmdir p, fs =>
     match fs.get p with
     | none => (.enoent, fs)
@@ -191,7 +189,7 @@ def apply : Op → FS → Res × FS
     | none => (.enoent, fs)
     | some (.dir _) => (.eisdir, fs)
     | some (.file i _) => (.fd i, fs)
-  | .read _ i, fs => (.data (fs.inoData i), fs)
+  | .read p i, fs => (.data (fs.readData p i), fs)
   | .opendir p, fs =>
     match fs.get p with
     | none => (.enoent, fs)
@@ -355,5 +353,311 @@ structure Cfg where
   /-- the unrepaired code (before fixes F08, F09): `expires_after` indexes `metadata['time']` unconditionally and a
   `ValueError` from reading `func_code.py` propagates -/
   legacy : Bool := false
+
+
+/-! ## Library procedures (CPython 3.12) -/
+
+open Prog
+
+def exists_ (p : Path) : Prog Bool :=
+  op (.stat p) fun r => ret (r == .yes)
+
+/-- `os.mkdir(p)` -/
+def mkdir1 (p : Path) : Prog Unit :=
+  op (.mkdir p) fun r =>
+    match r with
+    | .ok => ret ()
+    | .eexist => raise .fileExists
+    | .enoent => raise .fileNotFound
+    | .enotdir => raise .notADirectory
+    | _ => raise .osError
+
+/-- `os.makedirs(p)` (exist_ok=False): probe the parent, create it first when missing (ignoring FileExistsError there),
+then `mkdir`. The probe of the root (outside the cache directory) is not a modelled call. -/
+def makedirs : Nat → Path → Prog Unit
+  | 0, p => mkdir1 p
+  | fuel + 1, p =>
+    if parent p = [] then mkdir1 p
+    else
+      op (.stat (parent p)) fun r =>
+        if r == .yes then mkdir1 p
+        else
+          ((makedirs fuel (parent p)).tryCatch fun e =>
+            if e = .fileExists then ret () else raise e).bind fun _ => mkdir1 p
+
+/-- `joblib.disk.mkdirp` -/
+def mkdirp (p : Path) : Prog Unit :=
+  (makedirs p.length p).tryCatch fun e => if e = .fileExists then ret () else raise e
+
+/-- Insertion of a directory entry by kernel order. -/
+def insertRank (rank : Name → Nat) (x : Name × Bool) : List (Name × Bool) → List (Name × Bool)
+  | [] => [x]
+  | y :: ys => if rank x.1 ≤ rank y.1 then x :: y :: ys else y :: insertRank rank x ys
+
+def sortRank (rank : Name → Nat) : List (Name × Bool) → List (Name × Bool)
+  | [] => []
+  | x :: xs => insertRank rank x (sortRank rank xs)
+
+/-- `os.scandir(fd)` + `list(...)`: the entries in kernel order; an error lists nothing. -/
+def scandir (rank : Name → Nat) (p : Path) (i : Nat) (k : List (Name × Bool) → Prog α) : Prog α :=
+  op (.readdir p i) fun r =>
+    match r with
+    | .names l => k (sortRank rank l)
+    | _ => k []
+
+/-- `for entry in entries:` of `shutil._rmtree_safe_fd`; `strict = false` is `ignore_errors=True`. -/
+def rmLoop (strict : Bool) (recur : Path → Nat → Prog Unit) (p : Path) : List (Name × Bool) → Prog Unit
+  | [] => ret ()
+  | (n, true) :: rest =>
+    op (.stat (p ++ [n])) fun r =>            -- entry.stat(follow_symlinks=False)
+      if r != .yes then (if strict then raise .fileNotFound else rmLoop strict recur p rest)
+      else op (.opendir (p ++ [n])) fun r =>   -- os.open(entry.name, O_RDONLY, dir_fd=topfd)
+        match r with
+        | .fd j =>
+          (recur (p ++ [n]) j).bind fun _ =>
+          op (.rmdir (p ++ [n])) fun r =>
+            if strict && r != .ok then raise .osError else rmLoop strict recur p rest
+        | _ => if strict then raise .fileNotFound else rmLoop strict recur p rest
+  | (n, false) :: rest =>
+    op (.unlink (p ++ [n])) fun r =>
+      if strict && r != .ok then raise .fileNotFound else rmLoop strict recur p rest
+
+/-- `shutil._rmtree_safe_fd(topfd, path, onexc)`; the fuel bounds the directory depth (4 here). -/
+def rmSafeFd (rank : Name → Nat) (strict : Bool) : Nat → Path → Nat → Prog Unit
+  | 0, _, _ => ret ()
+  | fuel + 1, p, i => scandir rank p i fun l => rmLoop strict (rmSafeFd rank strict fuel) p l
+
+/-- `shutil.rmtree(p, ignore_errors = !strict)` -/
+def rmtree (rank : Name → Nat) (strict : Bool) (p : Path) : Prog Unit :=
+  op (.stat p) fun r =>                        -- os.lstat(path)
+    if r != .yes then (if strict then raise .fileNotFound else ret ())
+    else op (.opendir p) fun r =>              -- os.open(path, O_RDONLY)
+      match r with
+      | .fd i =>
+        (rmSafeFd rank strict 5 p i).bind fun _ =>
+        op (.rmdir p) fun r => if strict && r != .ok then raise .osError else ret ()
+      | _ => if strict then raise .fileNotFound else ret ()
+
+/-! ## joblib procedures -/
+
+section
+variable (c : Cfg)
+
+/-- `FileSystemStoreBackend.configure` (called by `Memory.__init__`) -/
+def configure : Prog Unit :=
+  (exists_ pLoc).bind fun e =>
+  (if e then ret () else mkdirp pLoc).bind fun _ =>
+  op (.creat pGit) fun r =>
+    match r with
+    | .fd i => op (.write pGit i c.codec.gitText) fun _ => ret ()
+    | .eisdir => raise .isADirectory
+    | .enotdir => raise .notADirectory
+    | _ => raise .fileNotFound
+
+/-- `store_cached_func_code([func_id])` without code (called by `MemorizedFunc.__init__`) -/
+def ensureFuncDir : Prog Unit :=
+  (exists_ pFunc).bind fun e => if e then ret () else mkdirp pFunc
+
+/-- `store_cached_func_code([func_id], func_code)` as called by `_write_func_code` -/
+def writeFuncCode : Prog Unit :=
+  ensureFuncDir.bind fun _ =>
+  op (.creat pCode) fun r =>
+    match r with
+    | .fd i => op (.write pCode i (c.codec.codeText c.ver)) fun _ => ret ()
+    | .eisdir => raise .isADirectory
+    | .enotdir => raise .notADirectory
+    | _ => raise .fileNotFound
+
+/-- `MemorizedFunc.clear()` : `clear_path` + `_write_func_code` -/
+def clearFunc : Prog Unit :=
+  (exists_ pFunc).bind fun e =>
+  (if e then rmtree c.rank false pFunc else ret ()).bind fun _ =>
+  writeFuncCode c
+
+/-- `_check_previous_func_code` in a process that has not validated this function yet. -/
+def checkPrevious : Prog Bool :=
+  op (.openr pCode) fun r =>
+    match r with
+    | .fd i =>
+      op (.read pCode i) fun r =>
+        match r with
+        | .data d =>
+          match c.codec.checkCode c.ver d with
+          | .same => ret true
+          | .differs => (clearFunc c).bind fun _ => ret false
+          | .valueError =>
+            if c.legacy then raise .valueError else (clearFunc c).bind fun _ => ret false
+        | _ => raise .osError
+    | _ => (writeFuncCode c).bind fun _ => ret false    -- except (IOError, OSError)
+
+/-- `get_metadata`: `true` iff the file reads as JSON with a `'time'` key; every failure reads as `{}`. -/
+def getMetadata (a : Nat) : Prog Bool :=
+  op (.openr (pMeta a)) fun r =>
+    match r with
+    | .fd i => op (.read (pMeta a) i) fun r =>
+        match r with
+        | .data d => ret (c.codec.metaHasTime d)
+        | _ => ret false
+    | _ => ret false
+
+/-- `clear_item` -/
+def clearItem (a : Nat) : Prog Unit :=
+  (exists_ (pEntry a)).bind fun e => if e then rmtree c.rank false (pEntry a) else ret ()
+
+/-- `_is_in_cache_and_valid` -/
+def isInCacheAndValid (a : Nat) : Prog Bool :=
+  (checkPrevious c).bind fun okc =>
+  if !okc then ret false else
+  (exists_ (pOut a)).bind fun e =>
+  if !e then ret false else
+  (getMetadata c a).bind fun hasTime =>
+  match c.callback with
+  | .none => ret true
+  | .expires fresh =>
+    if !hasTime then
+      (if c.legacy then raise .keyError else (clearItem c a).bind fun _ => ret false)
+    else if fresh then ret true
+    else (clearItem c a).bind fun _ => ret false
+
+/-- `load_item` -/
+def loadItem (a : Nat) : Prog Val :=
+  (exists_ (pOut a)).bind fun e =>
+  if !e then raise .keyError else
+  op (.openr (pOut a)) fun r =>
+    match r with
+    | .fd i => op (.read (pOut a) i) fun r =>
+        match r with
+        | .data d =>
+          match c.codec.unpickle d with
+          | some v => ret v
+          | none => raise .unpickleError
+        | _ => raise .osError
+    | .eisdir => raise .isADirectory
+    | _ => raise .fileNotFound
+
+/-- `_concurrency_safe_write`: private temporary, then `os.replace`. -/
+def safeWrite (tmp final : Path) (d : Bytes) : Prog Unit :=
+  op (.creat tmp) fun r =>
+    match r with
+    | .fd i =>
+      op (.write tmp i d) fun _ =>
+      op (.rename tmp final) fun r =>
+        match r with
+        | .ok => ret ()
+        | .eisdir => raise .isADirectory
+        | _ => raise .fileNotFound
+    | .eisdir => raise .isADirectory
+    | .enotdir => raise .notADirectory
+    | _ => raise .fileNotFound
+
+/-- `dump_item` (every exception becomes a warning) -/
+def dumpItem (a : Nat) (v : Val) : Prog Unit :=
+  ((exists_ (pEntry a)).bind fun e =>
+   (if e then ret () else mkdirp (pEntry a)).bind fun _ =>
+   safeWrite (pTmpOut a c.me) (pOut a) (c.codec.pickle v)).tryCatch fun _ => ret ()
+
+/-- `store_metadata` (bare `except: pass`) -/
+def storeMetadata (a : Nat) : Prog Unit :=
+  ((mkdirp (pEntry a)).bind fun _ =>
+   safeWrite (pTmpMeta a c.me) (pMeta a) c.codec.metaText).tryCatch fun _ => ret ()
+
+/-- `MemorizedResult.get()` : `load_item`, `ValueError` re-raised as `KeyError` -/
+def resultGet (a : Nat) : Prog Val :=
+  (loadItem c a).tryCatch fun e => if e = .valueError then raise .keyError else raise e
+
+/-- `_call` + `_after_call` + `_persist_input` (the function body itself makes no modelled call). -/
+def computeAndStore (a : Nat) : Prog Val :=
+  let v : Val := ⟨c.ver, a⟩
+  (dumpItem c a v).bind fun _ =>
+  (storeMetadata c a).bind fun _ =>
+  if c.shelve then resultGet c a else ret v
+
+/-- `MemorizedFunc._cached_call` (`__call__`, or `call_and_shelve(...).get()` when `c.shelve`) -/
+def cachedCall (a : Nat) : Prog Val :=
+  (isInCacheAndValid c a).bind fun valid =>
+  if valid then
+    if c.shelve then
+      -- `_get_memorized_result(call_id)` reads the metadata again, `.get()` loads
+      (getMetadata c a).bind fun _ => resultGet c a
+    else
+      ((loadItem c a).bind fun v => ret (some v)).tryCatch (fun _ => ret none) |>.bind fun r =>
+        match r with
+        | some v => ret v
+        | none => computeAndStore c a
+  else computeAndStore c a
+
+/-- A fresh process: `Memory(location)`, `memory.cache(f)`, one call. -/
+def callProc (a : Nat) : Prog Val :=
+  (configure c).bind fun _ => (ensureFuncDir).bind fun _ => cachedCall c a
+
+/-! ### `Memory.reduce_size` and `Memory.clear` -/
+
+/-- body of the `os.walk` loop in `get_items` for a hash directory `E a`: `getatime(output.pkl)` (falling back to the
+directory), `getsize` of every file; `true` = the entry is reported. -/
+def itemStats (a : Nat) : List (Name × Bool) → Prog Bool
+  | files =>
+    op (.stat (pOut a)) fun r =>
+      let sizes : List (Name × Bool) → Prog Bool := fun fl =>
+        fl.foldr (fun nf acc => op (.stat (pEntry a ++ [nf.1])) fun r => if r == .yes then acc else ret false) (ret true)
+      if r == .yes then sizes files
+      else op (.stat (pEntry a)) fun r => if r == .yes then sizes files else ret false
+
+/-- `os.walk(top)` as `get_items` uses it: list, run the body for hash directories, `islink` every sub-directory in
+reverse order, then descend in listing order. Returns the arguments whose entries were reported. -/
+def walk (rank : Name → Nat) : Nat → Path → Prog (List Nat)
+  | 0, _ => ret []
+  | fuel + 1, p =>
+    op (.opendir p) fun r =>
+      match r with
+      | .fd i =>
+        scandir rank p i fun l =>
+          let dirs := l.filter (·.2)
+          let files := l.filter (fun x => !x.2)
+          let here : Prog (List Nat) :=
+            match p.getLast? with
+            | some (.entry a) => if p = pEntry a then (itemStats a files).bind fun b => ret (if b then [a] else []) else ret []
+            | _ => ret []
+          here.bind fun found =>
+          (dirs.reverse.foldr (fun d acc => op (.stat (p ++ [d.1])) fun _ => acc) (ret ())).bind fun _ =>
+          (dirs.foldr (fun d acc => (walk rank fuel (p ++ [d.1])).bind fun f1 => acc.bind fun f2 => ret (f1 ++ f2))
+            (ret [])).bind fun sub => ret (found ++ sub)
+      | _ => ret []
+
+/-- `Memory.reduce_size`: inventory, then `rmtree` of the victims in eviction order (`OSError` ignored). `victims` is
+the eviction order decided by `_get_items_to_delete` (model `Lru`, property C18) — an input here; only entries the
+inventory reported are evicted. -/
+def reduceProc (victims : List Nat) : Prog Unit :=
+  (configure c).bind fun _ =>
+  (walk c.rank 6 pLoc).bind fun found =>
+  (victims.filter (found.contains ·)).foldr
+    (fun a acc => ((rmtree c.rank false (pEntry a)).tryCatch fun e => if e.isOSError then ret () else raise e).bind fun _ => acc)
+    (ret ())
+
+/-- `disk.delete_folder(p)` with its retry loop (`fuel` = RM_SUBDIRS_N_RETRY + 1 attempts). -/
+def deleteFolder (p : Path) : Nat → Prog Unit
+  | 0 => raise .osError
+  | fuel + 1 =>
+    op (.opendir p) fun r =>          -- os.listdir(folder_path), outside the try
+      match r with
+      | .fd i =>
+        scandir c.rank p i fun _ =>
+          (rmtree c.rank true p).tryCatch fun e =>
+            if e.isOSError then (if fuel = 0 then raise e else deleteFolder p fuel) else raise e
+      | .enotdir => raise .notADirectory
+      | _ => raise .fileNotFound
+
+/-- `Memory.clear()` = `rm_subdirs(location)` -/
+def clearProc : Prog Unit :=
+  (configure c).bind fun _ =>
+  op (.opendir pLoc) fun r =>
+    match r with
+    | .fd i =>
+      scandir c.rank pLoc i fun l =>
+        l.foldr (fun n acc =>
+          op (.stat (pLoc ++ [n.1])) fun r =>       -- os.path.isdir
+            (if r == .yes && n.2 then deleteFolder c (pLoc ++ [n.1]) 11 else ret ()).bind fun _ => acc) (ret ())
+    | _ => raise .fileNotFound
+
+end
 
 end JoblibModel.Store
